@@ -40,7 +40,8 @@
                           be reached;
        `unify_terminates_partial`  unification (successful or not) keeps an
                           acyclic store acyclic, and in an acyclic store every
-                          lookup returns;
+                          lookup and every deep traversal returns;
+       `find_compression_harmless`  path compression keeps the store acyclic;
        `unify_old_creates_cycle`  refutation on the unchanged tree: the arms
                           that bind a RECORD variable had no occurs check and the
                           never type unifies with anything — witness
